@@ -29,6 +29,7 @@ static int n_open, open_flags, open_mode, n_unlink, n_close;
 static int n_fcntl, first_cmd, l_type, l_whence;
 static long l_start, l_len;
 static int lock_result = 0;            /* what the interposed fcntl answers for F_SETLK */
+static int q_flags;
 static int n_getlk, getlk_answer, getlk_before_setlk;   /* getlk_answer: 0 = F_GETLK says unlocked, 1 = held by pid 1 */
 
 static int p_open(const char *path, int flags, ...) {
@@ -154,6 +155,22 @@ int main(void) {
         if (rej == 0) _lock_stat(fd, dir);
         printf("Definition lock_stat_accepts_nonregular : bool := %s.\n", B(!rej));
         close(fd);
+    }
+    /* 4b: lock_query (munged --stop / --status): how it opens the lock file, and whether a query with no lock file
+           present leaves anything behind */
+    {
+        struct conf cq; struct stat stq; int n0 = n_open;
+        memset(&cq, 0, sizeof cq);
+        cq.socket_name = sock; cq.lockfile_fd = -1;
+        unlink(lockp);
+        q_flags = -1;
+        if (setjmp(jb) == 0) { n_open = 0; (void) lock_query(&cq); q_flags = open_flags; }
+        n_open = n0 + 1;
+        printf("(* lock_query (munged --stop): flags of its open of the lock file; does a query without a lock file create one *)\n");
+        printf("Definition lock_query_creat : bool := %s.\n", B(q_flags >= 0 && (q_flags & O_CREAT)));
+        printf("Definition lock_query_leaves_file : bool := %s.\n", B(lstat(lockp, &stq) == 0));
+        if (cq.lockfile_fd >= 0) close(cq.lockfile_fd);
+        unlink(lockp);
     }
     /* 5: the lock file's name as _lock_create_name derives it from the socket name */
     {
